@@ -92,6 +92,10 @@ func parseScheduleMap(
 		case scheduleKeyRestart:
 			targets = restarts
 
+		default:
+			// An unknown key has no schedule list to go to.
+			return fmt.Errorf("%w: unknown schedule key %q", errInvalidSchedule, key)
+
 		}
 
 		for _, v := range values {
